@@ -365,6 +365,9 @@ PLAYBACK_RE = re.compile(r"Concrete playback unit test for `([^`]+)`:\n```\n(.*?
 def parse_playback(text):
     tests = []
     for full, src in PLAYBACK_RE.findall(text):
+        # Kani prints the description of a multi-line `assert!` over several lines, of which only the first is a
+        # comment: fold it into one line, or the generated test does not compile
+        src = re.sub(r"(/// Check for `\w+`: \")(.*?)(\"[ \t]*\n\s*#\[test\])", lambda mm: mm.group(1) + " ".join(mm.group(2).split()) + mm.group(3), src, flags=re.S)
         m = re.search(r"/// Check for `(\w+)`: \"(.*)\"", src)
         fn = re.search(r"fn (kani_concrete_playback_\w+)\(", src)
         vals = [{"comment": c.strip(), "bytes": [int(x) for x in b.replace(" ", "").split(",") if x]}
